@@ -69,6 +69,15 @@ struct Harness {
 	int slot[3]; int adds = 0;
 	int nextEventId = 1;
 	int active = 0;            // processing calls in progress that raised the "not empty" counter
+	int inClear = 0;           // clearEvents calls in progress
+	// The destructor of a queued argument is user code too: while clearEvents() discards events, the destructor of a discarded
+	// argument may enqueue (a completion token posting "done"). One PROG choice per destroyed original.
+	void onPayloadDeath(int cls, bool moved, int copyDepth) {
+		if(!cfg.nested || inClear == 0 || cls != TC_PAYLOAD || moved || copyDepth != 0 || ctx.failed) return;
+		if((int)pending.size() >= cfg.K) return;
+		int a = ctx.ex.choose(2, 1, K_PROG);
+		if(a == 1) { if(ctx.wantLog()) ctx.log("  (from the destructor of a discarded argument)"); doEnqueue(1, true); }
+	}
 	struct Frame {
 		int kind; std::vector<MEvent> batch; size_t pos; bool inEvent; std::vector<int> snap; size_t li;
 		std::vector<MEvent> declined; int predKind; int predCalls; bool stopped; bool predAsked; bool counted; int dispatched;
@@ -259,9 +268,13 @@ struct Harness {
 	void doClear() {
 		if(ctx.wantLog()) ctx.log("clearEvents()");
 		std::vector<int> ids; for(auto & e : pending) ids.push_back(e.id);
+		// what the call discards is decided when it starts; an event enqueued while it runs (from the destructor of a
+		// discarded argument, see onPayloadDeath) is left for later calls
+		std::deque<MEvent> discarded; discarded.swap(pending);
+		++inClear;
 		q->clearEvents();
-		for(auto & e : pending) consumed(e, "cleared");
-		pending.clear();
+		--inClear;
+		for(auto & e : discarded) consumed(e, "cleared");
 		// before clearEvents returns the arguments of the discarded events are released
 		for(int id : ids) if(ledger().liveCount(TC_PAYLOAD, id) != 0 && !ctx.failed) ctx.fail("ledger-cleared-payload-alive", fmt("payload of event %d is still alive after clearEvents returned", id));
 	}
@@ -383,8 +396,10 @@ struct Harness {
 		pending.clear(); listeners.assign(cfg.nKeys, std::vector<int>()); lhandle.clear(); lkey.clear(); lalive.clear(); frames.clear(); consumeCount.clear();
 		for(int i = 0; i < 3; ++i) slot[i] = -1;
 		adds = 0; nextEventId = 1; active = 0;
+		inClear = 0;
 		Q queue; q = &queue;
-		struct Clear { Harness * h; ~Clear() { h->lhandle.clear(); h->q = nullptr; } } clr{this};
+		struct Clear { Harness * h; ~Clear() { ledger().onDeath = nullptr; h->lhandle.clear(); h->q = nullptr; } } clr{this};
+		ledger().onDeath = [this](int cls, int, bool moved, int copyDepth) { onPayloadDeath(cls, moved, copyDepth); };
 		b.stepEnd(key());
 		for(;;) {
 			int op = b.chooseOp(topMenu());
@@ -428,6 +443,84 @@ static void addUnit(const std::string & name, int minTier, Cfg cfg, int dq, int 
 using ST = eventpp::SingleThreading;
 using MT = eventpp::MultipleThreading;
 
+
+// ------------------------------------------------------------------ arity matrix (complete enumeration)
+// EventQueue<int, void(int x N)> for N = 0..8: the queue unpacks the stored argument tuple through an index sequence, and
+// so do the predicates of processIf/processUntil and dispatch(QueuedEvent). Every argument position carries a distinct
+// value; every consuming call form must hand exactly those values, in order, to listeners and predicates.
+#if SEL(5, 3) && __cplusplus >= 201402L
+#define VERIF_HAVE_ARITY 1
+namespace arity {
+template <size_t> using IntT = int;
+template <typename Seq> struct Sig;
+template <size_t ...I> struct Sig<std::index_sequence<I...> > { typedef void type(IntT<I>...); };
+typedef std::vector<int> Args;
+static std::string show(const std::vector<Args> & v) { std::string s; for(auto & a : v) { s += "("; for(size_t i = 0; i < a.size(); ++i) s += fmt("%s%d", i ? "," : "", a[i]); s += ") "; } return s; }
+
+template <size_t N>
+struct Case {
+	typedef std::make_index_sequence<N> Seq;
+	typedef typename Sig<Seq>::type Proto;
+	typedef eventpp::EventQueue<int, Proto> Q;
+	Ctx & ctx; long & evals;
+	std::vector<Args> listener, predicate;
+	int predCalls = 0; unsigned predTrueMask = 0;
+	Case(Ctx & c, long & e) : ctx(c), evals(e) {}
+	static Args args(int ev) { Args v; for(size_t i = 0; i < N; ++i) v.push_back(ev * 100 + (int)i * 7 + 1); return v; }
+	template <size_t ...I> void enq(Q & q, int ev, std::index_sequence<I...>) { Args a = args(ev); (void)a; q.enqueue(5, a[I]...); }
+	template <size_t ...I> void listen(Q & q, std::index_sequence<I...>) { q.appendListener(5, [this](IntT<I>... xs) { listener.push_back(Args{xs...}); }); }
+	template <size_t ...I> bool procIf(Q & q, std::index_sequence<I...>) { return q.processIf([this](IntT<I>... xs) { predicate.push_back(Args{xs...}); return ((predTrueMask >> predCalls++) & 1u) != 0; }); }
+	template <size_t ...I> bool procUntil(Q & q, std::index_sequence<I...>) { return q.processUntil([this](IntT<I>... xs) { predicate.push_back(Args{xs...}); return ((predTrueMask >> predCalls++) & 1u) != 0; }); }
+	template <size_t ...I> Args tupleOf(const typename Q::QueuedEvent & qe, std::index_sequence<I...>) { return Args{std::get<I>(qe.arguments)...}; }
+	template <size_t ...I> Args gettersOf(const typename Q::QueuedEvent & qe, std::index_sequence<I...>) { return Args{qe.template getArgument<I>()...}; }
+	void expect(const char * mode, const char * what, const std::vector<Args> & got, std::initializer_list<int> evs) {
+		++evals;
+		std::vector<Args> want; for(int e : evs) want.push_back(args(e));
+		if(got != want && !ctx.failed) ctx.fail("arity-arguments-differ", fmt("EventQueue<int, void(int x %zu)>, %s: %s received %s, expected %s", N, mode, what, show(got).c_str(), show(want).c_str()));
+	}
+	void run() {
+		for(int mode = 0; mode < 5 && !ctx.failed; ++mode) {
+			Q q; listener.clear(); predicate.clear(); predCalls = 0;
+			listen(q, Seq());
+			for(int ev = 1; ev <= 3; ++ev) enq(q, ev, Seq());
+			ctx.obs((uint64_t)(N * 10 + mode));
+			if(mode == 0) { q.process(); expect("process", "the listener", listener, {1, 2, 3}); }
+			else if(mode == 1) { q.processOne(); expect("processOne", "the listener", listener, {1}); q.processOne(); q.processOne(); expect("processOne x3", "the listener", listener, {1, 2, 3}); }
+			else if(mode == 2) {
+				predTrueMask = 0x5; procIf(q, Seq());
+				expect("processIf(accept 1st and 3rd)", "the predicate", predicate, {1, 2, 3}); expect("processIf(accept 1st and 3rd)", "the listener", listener, {1, 3});
+				q.process(); expect("processIf then process", "the listener", listener, {1, 3, 2});
+			}
+			else if(mode == 3) {
+				predTrueMask = 0x2; procUntil(q, Seq());
+				expect("processUntil(stop at the 2nd)", "the predicate", predicate, {1, 2}); expect("processUntil(stop at the 2nd)", "the listener", listener, {1});
+				q.process(); expect("processUntil then process", "the listener", listener, {1, 2, 3});
+			}
+			else {
+				typename Q::QueuedEvent qe;
+				if(!q.peekEvent(&qe)) { ctx.fail("arity-arguments-differ", "peekEvent found nothing"); return; }
+				expect("peekEvent", "QueuedEvent::arguments", std::vector<Args>{tupleOf(qe, Seq())}, {1}); expect("peekEvent", "QueuedEvent::getArgument<i>()", std::vector<Args>{gettersOf(qe, Seq())}, {1});
+				typename Q::QueuedEvent qt;
+				if(!q.takeEvent(&qt)) { ctx.fail("arity-arguments-differ", "takeEvent found nothing"); return; }
+				expect("takeEvent", "QueuedEvent::arguments", std::vector<Args>{tupleOf(qt, Seq())}, {1});
+				{ const typename Q::QueuedEvent & cq = qt; q.dispatch(cq); } expect("dispatch(QueuedEvent)", "the listener", listener, {1});
+				q.process(); expect("take+dispatch then process", "the listener", listener, {1, 2, 3});
+			}
+			for(auto & a : listener) for(int x : a) ctx.obs((uint64_t)x);
+		}
+	}
+};
+template <size_t N> static void runOne(Ctx & ctx, long & evals) { Case<N> c(ctx, evals); c.run(); }
+static void runAll(Ctx & ctx, UnitReport & rep) {
+	long evals = 0;
+	runOne<0>(ctx, evals); runOne<1>(ctx, evals); runOne<2>(ctx, evals); runOne<3>(ctx, evals); runOne<4>(ctx, evals);
+	runOne<5>(ctx, evals); runOne<6>(ctx, evals); runOne<7>(ctx, evals); runOne<8>(ctx, evals);
+	ctx.executions = evals; rep.num["executions"] = (double)evals; rep.num["arities"] = 9; rep.num["call_forms"] = 5;
+	ctx.samples.push_back("EventQueue<int, void(int,int,int)>: enqueue x3; processIf(accept 1st and 3rd); process");
+}
+}
+#endif
+
 static struct Register {
 	Register() {
 		Cfg flat; flat.K = 3;
@@ -451,6 +544,14 @@ static struct Register {
 		addUnit<PolPlain<ST>, PMMoveOnly>("C05/flat/move-only-payload", 0, flat, 5, 30, 0, 0);
 		addUnit<PolPlain<MT>, PMMoveOnly>("C05/nested/move-only-payload", 0, nestC, 4, 4, 1, 2);
 		addUnit<PolPlain<VThreading>, PMByValue>("C05/nested/by-value-payload", 0, nest, 4, 4, 1, 2);
+#endif
+#ifdef VERIF_HAVE_ARITY
+		{
+			Unit u; u.name = "C05/arity-matrix"; u.minTier = 0;
+			u.run = [](Ctx & ctx, UnitReport & rep, int) { ctx.ex.beginExecution(); arity::runAll(ctx, rep); rep.str["config"] = "EventQueue<int, void(int x N)>, N = 0..8 x {process, processOne, processIf, processUntil, peek/take/dispatch(QueuedEvent)}: complete enumeration"; };
+			u.replay = [](Ctx & ctx, const std::vector<int> &) { UnitReport r; ctx.tracing = true; arity::runAll(ctx, r); };
+			units().push_back(u);
+		}
 #endif
 #if SEL(13, 0)
 		{ Cfg c = flat; c.ordered = true; c.nKeys = 3; c.cmpKind = 0;
